@@ -21,7 +21,7 @@ Abs(v) == IF v < 0 THEN -v ELSE v
 LatRule ==
     LET kd == Ev.kind  v == Ev.k  s == SumSq(v) IN
     IF kd = "circle" /\ s = 0 THEN TRUE            \* all-zero proposal: two adversarial words, outside the quantifier
-    ELSE /\ Ev.res = "Ok"
+    ELSE /\ Ev.res = "Ok" /\ Ev.finite                \* never NaN / infinite
          /\ Ev.words % Dim(kd) = 0                  \* Dim words per loop iteration
          /\ Ev.acc = Accept(kd, v)                  \* accepted in the scripted iteration iff the documented region says so
          /\ Ev.acc =>
@@ -46,7 +46,7 @@ RandRule ==
 
 FineRule == LET kd == Ev.kind v == Ev.k IN
             (kd = "circle" /\ SumSq(v) = 0) \/
-            (/\ Ev.res = "Ok" /\ Ev.words % Dim(kd) = 0
+            (/\ Ev.res = "Ok" /\ Ev.finite /\ Ev.words % Dim(kd) = 0
              /\ Ev.acc = AcceptD(kd, v, 4096)
              /\ (Ev.acc /\ kd \in {"disc", "ball"}) => \A i \in 1..Len(v) : Ev.q[i] = v[i] * 1024)      \* x * 2^16, x = k/64
 
